@@ -29,6 +29,14 @@ var guardTargets = []target{
 		Leaves: map[string]leaf{}},
 	{Name: "Gen.RegisterGCA", Tags: "test", Pkg: "server", Func: "GCAServer.registerGCA",
 		Leaves: map[string]leaf{"gcas.gcaPubkeyAvailable": {"avail", "Bool"}}},
+	{Name: "Gen.LoadEquipment", Tags: "test", Pkg: "server", Func: "GCAServer.loadEquipment",
+		Leaves: map[string]leaf{"len(rawData)": {"n", bv(64)}}},
+	{Name: "Gen.LoadHistory", Tags: "test", Pkg: "server", Func: "GCAServer.loadEquipmentHistory",
+		Leaves: map[string]leaf{"len(data)": {"n", bv(64)}}},
+	{Name: "Gen.LoadReports", Tags: "test", Pkg: "server", Func: "GCAServer.loadEquipmentReports",
+		Leaves: map[string]leaf{"len(rawData)": {"n", bv(64)}}},
+	{Name: "Gen.LoadGCAPubkey", Tags: "test", Pkg: "server", Func: "GCAServer.loadGCAPubkey",
+		Leaves: map[string]leaf{"len(pubkeyData)": {"n", bv(64)}}},
 	{Name: "Gen.ListenUDP", Tags: "test", Pkg: "server", Func: "GCAServer.threadedListenUDP",
 		Leaves: map[string]leaf{"readBytes": {"n", bv(64)}}},
 	{Name: "Gen.ValidateMigration", Tags: "test", Pkg: "server", Func: "GCAServer.managedValidateMigration",
